@@ -3,6 +3,7 @@
    non-vacuity Examples, and [Print Assumptions]. *)
 From RJ Require Import Base.Outcome Model.Token Model.Ast Model.Ir Model.Analyze Proofs.Analyze_proofs
   Proofs.AnalyzeRt_proofs Proofs.AnalyzeLoc_proofs.
+From RJ Require Model.RefCore Model.RefValue Model.RefEval Proofs.RefScope_defs Proofs.RefScope_main Proofs.RefScope_static.
 Local Open Scope N_scope.
 
 (* The analyzer (mirror of program/analyze.rs) accepts a program exactly when
@@ -122,6 +123,15 @@ Proof.
     vm_compute in E. injection E as <-. vm_compute. split; reflexivity.
 Qed.
 
+(* ---- the run-time half over the FULL reference evaluator of C02 (Model/RefEval.v, tied to the
+   implementation end to end from source text): a program accepted by the static rules never
+   fails at run time because a variable, self, super or $ turns out to be unbound — for every
+   fuel, stack limit and evaluation-order switch.  Re-pinned from Proofs/RefScope_static.v
+   (proved by the C02 work as a scope-preservation invariant over every run-time structure). ---- *)
+Theorem C09_refeval_no_static_error : forall e, StaticOK [RefValue.s_std] false e ->
+  forall fuel c, ~ RefScope_main.static_error (RefEval.run fuel c e).
+Proof. exact RefScope_static.refeval_no_static_error. Qed.
+
 Print Assumptions C09_analyze_exact.
 Print Assumptions C09_analyze_no_panic.
 Print Assumptions C09_field_name_sees_outer_scope.
@@ -134,3 +144,4 @@ Print Assumptions C09_analyze_walk_no_unbound.
 Print Assumptions C09_nonvacuous_ok.
 Print Assumptions C09_nonvacuous_err.
 Print Assumptions C09_nonvacuous_walk.
+Print Assumptions C09_refeval_no_static_error.
